@@ -7,9 +7,9 @@ props={json.loads(l)['id']:json.loads(l) for l in open('/verif/properties.jsonl'
 claimed=[c['property_id'] for c in json.load(open('/verif/MANIFEST.json'))['checks']]
 only=sys.argv[1:] 
 for name in sorted(os.listdir(SRC)):
-    if not re.match(r'C\d\d-\d$',name): continue
+    if not re.match(r'C\d\d[a-z]?-\d$',name): continue
     if only and name not in only: continue
-    d=os.path.join(SRC,name); pid=name.split('-')[0]
+    d=os.path.join(SRC,name); pid=name[:3]
     conf=subprocess.run(['/verif/tools/confirm_seed.sh',d],capture_output=True,text=True).stdout.strip().split('\n')[-1]
     patch=os.path.join(d,'patch.rebased.diff') if os.path.exists(os.path.join(d,'patch.rebased.diff')) else os.path.join(d,'patch.diff')
     out=os.path.join('/verif/seeded',name); os.makedirs(out,exist_ok=True)
